@@ -92,10 +92,11 @@ for k in (1, 2, 4, 9, 10, 16):
             for off in (0, m - 1, m // 2):
                 raw = q * m + (off if q >= 0 else -off)
                 inkind = lo <= tq(raw, m) <= hi
+                # judged whether or not the integer part fits the kind: Go's integer conversion wraps deterministically
                 if fits(raw, 64):
-                    put(inkind, "f64 %d as %s %d" % (k, name, raw))
+                    put(True, "f64 %d as %s %d" % (k, name, raw))
                 if fits(raw, 128):
-                    put(inkind, "f128 %d as %s %d" % (k, name, raw))
+                    put(True, "f128 %d as %s %d" % (k, name, raw))
     # ---- products / scaled dividends at the word boundaries
     for t in ((1 << 63) - 1, 1 << 63, (1 << 63) + 1, (1 << 64) - 1, 1 << 64, (1 << 64) + 1, (1 << 62), (1 << 65) + 3,
               (1 << 127) - 1, (1 << 126) + 5, 10 ** 19, 18 * 10 ** 18):
